@@ -549,10 +549,48 @@ func ComputeFacts(f *ssa.Function) *Facts {
 		}
 		if len(pred.Instrs) > 0 {
 			if iff, ok := pred.Instrs[len(pred.Instrs)-1].(*ssa.If); ok && len(pred.Succs) == 2 && pred.Succs[0] != pred.Succs[1] {
-				if succ == pred.Succs[0] {
-					addCond(out, iff.Cond, true)
-				} else if succ == pred.Succs[1] {
-					addCond(out, iff.Cond, false)
+				pol := succ == pred.Succs[0]
+				if succ == pred.Succs[0] || succ == pred.Succs[1] {
+					addCond(out, iff.Cond, pol)
+					// `a && b` / `a || b` evaluated as a value: phi [short-circuit: const, rhs: X]
+					if p, isPhi := iff.Cond.(*ssa.Phi); isPhi && p.Block() == pred {
+						rhs := -1
+						allConst := true
+						var cval bool
+						for i, e := range p.Edges {
+							if cb, isC := constBool(e); isC {
+								cval = cb
+							} else if rhs < 0 {
+								rhs = i
+							} else {
+								allConst = false
+							}
+						}
+						if rhs >= 0 && allConst && len(p.Edges) >= 2 && pol != cval {
+							// the value can only have come through the rhs edge
+							rp := pred.Preds[rhs]
+							if base := fa.in[rp]; base != nil {
+								for k := range base {
+									out[k] = true
+								}
+							}
+							if len(rp.Instrs) > 0 {
+								if riff, isIf := rp.Instrs[len(rp.Instrs)-1].(*ssa.If); isIf && len(rp.Succs) == 2 {
+									addCond(out, riff.Cond, pred == rp.Succs[0])
+								}
+							}
+							// straight-line rhs block: inherit the facts of the edge into it
+							if len(rp.Preds) == 1 {
+								pp := rp.Preds[0]
+								if len(pp.Instrs) > 0 {
+									if piff, isIf := pp.Instrs[len(pp.Instrs)-1].(*ssa.If); isIf && len(pp.Succs) == 2 && pp.Succs[0] != pp.Succs[1] {
+										addCond(out, piff.Cond, rp == pp.Succs[0])
+									}
+								}
+							}
+							addCond(out, p.Edges[rhs], pol)
+						}
+					}
 				}
 			}
 		}
